@@ -125,3 +125,20 @@ Theorem C08_http_announce_end_to_end_compact : forall parse_ip header_get split_
            exists c4, compact_all compact4 ps = Some c4 /\ get k_peers v' = opt_str c4.
 Proof. exact http_announce_end_to_end_compact. Qed.
 Print Assumptions C08_http_announce_end_to_end_compact.
+
+(* end to end, scrape route: for ANY store state, every body the writer can emit for an accepted scrape decodes to
+   a "files" dictionary holding, under each requested infohash, the counts of that swarm in the family derived
+   from the client's address (an IPv4-mapped address counts as IPv4) *)
+Theorem C08_http_scrape_end_to_end : forall parse_ip split_host split_ok (o : HttpParse.popts) sp uri remote ihs q af,
+  HttpParse.parse_scrape o uri = HttpParse.Accept (ihs, q) ->
+  HttpParse.scrape_route_af parse_ip split_host split_ok remote = HttpParse.Accept af ->
+  exists v, http_scrape_step spec_if parse_ip split_host split_ok o sp uri remote = HBody v /\
+    forall v' fuel, same_value v v' = true -> (length (bencode v') <= fuel)%nat ->
+      bdecode fuel (bencode v') = Ok v' [] /\
+      exists fd, get k_files v' = Some (BDict fd) /\
+        forall ih, In ih ihs ->
+          exists pd, lookup ih fd = Some pd /\
+                get k_complete pd = Some (BInt (st_scrape spec_if ih (v6_of af) sp).1) /\
+                get k_incomplete pd = Some (BInt (st_scrape spec_if ih (v6_of af) sp).2).
+Proof. exact http_scrape_end_to_end. Qed.
+Print Assumptions C08_http_scrape_end_to_end.
